@@ -460,7 +460,7 @@ class Ctx:
         tmp = os.path.join(EVID, self.pid + ".json.tmp")
         json.dump(ev, open(tmp, "w"), indent=1, default=str)
         os.replace(tmp, os.path.join(EVID, self.pid + ".json"))
-        if not nviol and not out_lines:
+        if not nviol and not out_lines and not os.environ.get("VERIF_KEEP"):
             shutil.rmtree(self.work, ignore_errors=True)   # nothing to diagnose: leave no scratch behind
         for l in out_lines:
             print(l, flush=True)
